@@ -8,6 +8,7 @@ CONSTANTS
   MaxFaultPos = 4
   OptSet <- OptsCore
   Colls = {"default"}
+  CancelModes = {}
   Depth = 8
   ExcludedConsulted = TRUE
   Mut = "none"
